@@ -310,7 +310,7 @@ def run_ob(ob, workdir, keep=False):
             raise Undecided('cbmc left %d properties undecided, e.g. %s' % (len(unknown), unknown[0]))
         elif canaries == 0 and not getattr(ob, 'no_canary', False):
             raise Undecided('harness has no canary (vacuity guard missing)')
-        elif canary_pass:
+        elif canary_pass and not getattr(ob, 'no_canary', False):
             raise Undecided('vacuous: canary not reachable: %s' % canary_pass[:3])
         elif res['properties'] == 0:
             raise Undecided('no obligations generated')
